@@ -17,6 +17,7 @@ import math
 import os
 import struct
 import sys
+import warnings
 from fractions import Fraction as Fr
 
 import numpy as np
@@ -272,6 +273,7 @@ def run(ctx):
     ctx.require_lean(['drv_c12'])
 
     # ---- T-tab: regenerate, oracle, re-prove ----
+    bad_tabs = set()
     try:
         tabs, changed = T.generate(GEN)
     except Exception as ex:
@@ -284,6 +286,7 @@ def run(ctx):
         ctx.extra['tableau_tolerances'] = {t['name']: {'u_T': float(t['u_T']), 'from': t['u_from'],
                                                        'max_eps': float(max(e for grp in t['eps_b'] for e in grp))} for t in tabs}
         others_ok = check_tableaux(ctx, tabs)
+        bad_tabs = set(v['key'].split(':')[1] for v in ctx.violations if v['key'].startswith('tableau:'))
         ok, log = ctx.lake_build(['Pyiga.Props.C12'])
         ctx.obligation('regenerated obligations: lake build Pyiga.Props.C12 (order conditions of 11 tableaux, negation for dirk34, ConstDiag, SA-exact)', ok,
                        '' if ok else log[-1500:])
@@ -313,7 +316,8 @@ def run(ctx):
     import contextlib, io
     def guarded(f):
         try:
-            with contextlib.redirect_stdout(io.StringIO()):
+            with contextlib.redirect_stdout(io.StringIO()), warnings.catch_warnings(), np.errstate(all='ignore'):
+                warnings.simplefilter('ignore')
                 return ('ok', f())
         except AssertionError:
             return ('err-AssertionError', None)
@@ -514,7 +518,7 @@ def run(ctx):
     ctx.extra['requests'] = len(req); ctx.extra['requests_by_op'] = nreq
 
     # ---- direct property probes on the shipped methods (model-free; support the search) ----
-    probes(ctx, solvers, T)
+    probes(ctx, solvers, T, bad_tabs)
     ctx.rule = ('12 shipped tableaux (all conditions up to the documented order, main+embedded, exact Fractions and Lean kernel); '
                 'dirk/ros steps: shipped + random user tableaux (s<=4, explicit first stage, allclose window, malformed zero diagonal) x '
                 'mass None/dense/sparse SPD integer x dissipative/general/dyadic/stiff L (n<=4) x tau in 2^1..2^-9,0.1,0.37,0.003 x Fx none/F(x)/arbitrary; '
@@ -761,7 +765,7 @@ def replay_ros(m):
             'implementation_x_new': np.ravel(out[0]).tolist() if tag == 'ok' else None}
 
 
-def probes(ctx, solvers, T):
+def probes(ctx, solvers, T, bad_tabs=()):
     """end-to-end, model-free: every exported method integrates y' = c over [0,1] (tau=1/4) to c within
     n_steps*|sum(b)-1| + rounding; constant drivers return t0+k*tau; adaptive drivers reach t_end."""
     c = np.array([1.0, -2.0])
@@ -781,12 +785,12 @@ def probes(ctx, solvers, T):
             ctx.violation('probe:' + name, '%s raised %s on y\'=c' % (name, type(ex).__name__), {'exception': repr(ex)}, True)
             continue
         ctx.count('probe runs')
-        err = float(np.max(np.abs(sols[-1] - c * times[-1])))
+        err = float(np.max(np.abs(sols[-1] - c * (0.25 * (len(sols) - 1)))))
         okt = list(times) == [0.25 * k for k in range(5)] and len(sols) == 5
         if not okt:
             ctx.violation('probe:%s:times' % name, '%s(tau=0.25, t_end=1) returned times %s' % (name, list(times)), {'times': list(times)}, True)
         if err > 1e-12:
-            key = 'tableau:%s:order-conditions' % name
+            key = ('tableau:%s:order-conditions' if name in bad_tabs else 'probe:%s:const-rhs') % name
             ctx.violation(key, "%s integrates y'=c (c=(1,-2), M=[[2,1],[1,3]], tau=1/4, 4 steps) with error %.3e" % (name, err),
                           {'method': name, 'y_end': np.asarray(sols[-1]).tolist(), 'expected': c.tolist(), 'error': err}, True)
         if adaptive:
